@@ -60,6 +60,9 @@ var modelledOps = map[string]bool{
 	// layer 3 (references)
 	"NewStdSignal": true, "NewEnumSignal": true, "StdSetType": true, "StdSetUnit": true, "EnumSetEnum": true,
 	"Assign": true, "RemoveAssign": true, "RemoveAllAssign": true, "BusSetBuilder": true,
+	// layer 2 (signals by name in messages and multiplexers)
+	"NewMuxSignal": true, "MsgAppendSignal": true, "MsgInsertSignal": true, "MsgRemoveSignal": true, "MsgRemoveAllSignals": true,
+	"SigUpdateName": true, "MuxInsertSignal": true, "MuxRemoveSignal": true, "MuxClearGroup": true, "MuxClearAll": true,
 }
 
 // goName: the Go method an operation stands for (call site in signatures and messages)
